@@ -161,6 +161,7 @@ class GraphExec:
         self.env = env
         self.actions = np.asarray(actions)
         self.ex = ex or Explorer(env, "graph", PID, keys=[], actions=self.actions, eager_max_paths=0)
+        self._cache: Dict[bytes, Tuple[Any, Any]] = {}
 
     def roots(self, keys: Sequence[int]) -> Tuple[Any, Any]:
         st, ts = self.ex._reset_b(jnp.stack([prng(k) for k in keys]))
@@ -168,8 +169,15 @@ class GraphExec:
 
     def children(self, state_row: Any) -> Tuple[Any, Any]:
         """all successors of one state: leaves [nA, ...]"""
-        s2, ts2 = self.ex._expand(tmap(lambda x: np.asarray(x)[None], state_row))
-        return t_index(s2, 0), t_index(ts2, 0)
+        batch = tmap(lambda x: np.asarray(x)[None], state_row)
+        key = row_bytes(batch)[0].tobytes()
+        hit = self._cache.get(key)
+        if hit is None:
+            s2, ts2 = self.ex._expand(batch)
+            hit = (t_index(s2, 0), t_index(ts2, 0))
+            if len(self._cache) < 64:
+                self._cache[key] = hit
+        return hit
 
     def walk(self, state_row: Any, acts: Sequence[int]) -> List[Tuple[Any, Any]]:
         out = []
@@ -293,10 +301,11 @@ def check_config(cfg_name: str, family: str, ctor: str, kind: str, tier: str, se
 
     # ------------------------------------------------------------------ exploration (graph mode)
     t0 = time.time()
-    rec = Recorder()
+    rec = Recorder(per_parent=max(16, -(-B["n_T"] // len(KEY_WINDOW))))
     ex = Explorer(env, cfg_name, PID, keys=KEY_WINDOW, actions=actions, monitors=[rec],
                   max_depth=64, max_states=B["max_states"], seed=seed, ctor=ctor, eager_max_paths=0,
-                  time_budget_s=60.0 if tier == "quick" else 400.0)
+                  time_budget_s=60.0 if tier == "quick" else 400.0,
+                  chunk_rows=(32 if tier == "quick" else 128) * nA)  # few padded batch shapes => few compilations
     res = ex.run()
     gx = GraphExec(env, actions, ex)
     root_s, root_ts = ex._root_state, ex._root_ts
@@ -547,7 +556,8 @@ def check_config(cfg_name: str, family: str, ctor: str, kind: str, tier: str, se
     # ------------------------------------------------------------------ (2)+(3) call histories, instances
     t0 = time.time()
     hist = run_histories(cx, env, twin, gx, ctor, actions, root_s, root_ts, tier,
-                         eager_cheap=(not slow) and max(step_eager_s or 0, reset_eager_s or 0) < EAGER_CHEAP_S)
+                         eager_cheap=(not slow) and max(step_eager_s or 0, reset_eager_s or 0) < EAGER_CHEAP_S,
+                         env_jit={"reset": reset_j, "step": step_j})
     timing["history_s"] = round(time.time() - t0, 2)
 
     n_compared = sum(cx.vac.get(k, 0) for k in ("n_jit", "n_vmap", "n_scan_steps", "n_eager", "n_reset_jit",
@@ -576,7 +586,7 @@ def check_config(cfg_name: str, family: str, ctor: str, kind: str, tier: str, se
                                                 "n_reset_vmap", "n_reset_eager", "n_histories", "n_history_calls",
                                                 "n_history_eager_calls", "n_trace_probes", "n_argument_checks",
                                                 "n_instance_calls")},
-        "history_mode": hist["mode"], "history_alphabet": hist["alphabet"],
+        "history_mode": hist["mode"], "history_alphabet": hist["alphabet"], "instance_check": hist["instances"],
         "eager_step_s": None if step_eager_s is None else round(step_eager_s, 3),
         "eager_reset_s": None if reset_eager_s is None else round(reset_eager_s, 3),
         "timing": timing, "total_s": round(time.time() - t_start, 2),
@@ -674,7 +684,7 @@ def run_history(envh: Any, seq: Sequence[str], calls: CallSet, expected: Dict[st
 
 
 def run_histories(cx: Ctx, env: Any, twin: Any, gx: GraphExec, ctor: str, actions: np.ndarray, root_s: Any,
-                  root_ts: Any, tier: str, eager_cheap: bool) -> Dict[str, Any]:
+                  root_ts: Any, tier: str, eager_cheap: bool, env_jit: Dict[str, Any]) -> Dict[str, Any]:
     L = BOUNDS[tier]["hist_len"]
     a0, a1 = pick_alphabet(gx, root_s)
     k0, k1 = KEY_WINDOW[0], KEY_WINDOW[1]
@@ -697,8 +707,29 @@ def run_histories(cx: Ctx, env: Any, twin: Any, gx: GraphExec, ctor: str, action
     #    `twin` was constructed together with `env` and has not been touched yet.
     late = _make(ctor)
     fresh_prog = {"reset": traced_program(late.reset, calls.k0), "step": traced_program(late.step, calls.s0, calls.a0)}
-    expected = expected_on(late, calls)
-    for which, inst_res in (("constructed-after-another-was-driven", expected), ("twin-constructed-before", expected_on(twin, calls))):
+    # quick tier: when the program traced on the other instance is identical (jaxpr text + constants) to the one
+    # traced on the driven instance, its results are those of the driven instance's jit wrappers (already
+    # compiled in part 1) - no further compilation; otherwise, and always in the thorough tier, compile and run.
+    env_prog = None
+    env_res = None
+    if tier == "quick":
+        env_prog = {"reset": traced_program(env.reset, calls.k0), "step": traced_program(env.step, calls.s0, calls.a0)}
+        env_res = {name: canon(env_jit[calls.args(name)[0]](*calls.args(name)[1])) for name in CALLS}
+    expected = None
+    inst_how = {}
+    for which, inst in (("constructed-after-another-was-driven", late), ("twin-constructed-before", twin)):
+        prog = fresh_prog if inst is late else {"reset": traced_program(inst.reset, calls.k0),
+                                                "step": traced_program(inst.step, calls.s0, calls.a0)}
+        if env_prog is not None and all(same_program(prog[f], env_prog[f]) for f in ("reset", "step")):
+            inst_res = env_res
+            inst_how[which] = "identical traced program"
+            cx.count("n_instance_by_program")
+        else:
+            inst_res = expected_on(inst, calls)
+            inst_how[which] = "compiled and compared"
+            cx.count("n_instance_by_value")
+        if inst is late:
+            expected = inst_res
         for name in CALLS:
             d = leaf_diff(graph[name], inst_res[name])
             cx.count("n_instance_calls")
@@ -757,7 +788,7 @@ def run_histories(cx: Ctx, env: Any, twin: Any, gx: GraphExec, ctor: str, action
                              dict(base, kind="history", mode="trace-after-history", history=[c1], probe=badp[0]))
         samples.append({"model": cx.model, "what": "history on one object", "mode": mode, "history": [CALLS[2], CALLS[0]], **base})
     cx.count("n_histories", n_hist)
-    return {"n_histories": n_hist, "mode": mode, "alphabet": base, "samples": samples}
+    return {"n_histories": n_hist, "mode": mode, "alphabet": base, "samples": samples, "instances": inst_how}
 
 
 # ---------------------------------------------------------------------------------------------
